@@ -509,3 +509,95 @@ def _getenv(I):
 
 
 CHECK = C11()
+
+
+# =========================================================================== SSE bodies, shape by shape
+class SseText(Contract):
+    """_process_sse_text on a body of a given spec-conformant SHAPE with arbitrary JSON payload(s): every message the
+    body contains is delivered, in order, and nothing else.  (WHATWG event-stream line grammar: `data:` with or without
+    one space, default event type `message`, comment lines, CRLF or LF.)"""
+    key = f"{HTTP}::StreamableHTTPTransport._process_sse_text"
+    prop = "C11"
+    covers = ("return",)
+
+    SHAPES = {
+        # name: (template, number of payloads, payload indices expected to be delivered)
+        "canonical_lf": (["event: message\ndata: ", 0, "\n\n"], 1, [0]),
+        "canonical_crlf": (["event: message\r\ndata: ", 0, "\r\n\r\n"], 1, [0]),
+        "two_events": (["event: message\ndata: ", 0, "\n\nevent: message\ndata: ", 1, "\n\n"], 2, [0, 1]),
+        "comment_and_id_lines": ([": keepalive\nid: 7\nevent: message\ndata: ", 0, "\n\n"], 1, [0]),
+        "other_event_type_is_not_a_message": (["event: ping\ndata: ", 0, "\n\n"], 1, []),
+        "no_event_field": (["data: ", 0, "\n\n"], 1, [0]),
+        "no_space_after_data_colon": (["event: message\ndata:", 0, "\n\n"], 1, [0]),
+    }
+    FINDING = {"no_event_field": "sse-event-without-event-field-dropped",
+               "no_space_after_data_colon": "sse-data-line-without-space-dropped"}
+
+    def __init__(self, shape):
+        self.shape = shape
+
+    def name(self, clause):
+        return f"C11._process_sse_text.{clause}[{self.shape}]"
+
+    def setup(self, I):
+        I.c11 = self
+        tcd = I.ctx.repo_class(I.ctx.repo.klass(f"{HTTP}::StreamableHTTPTransport"))
+        self.incoming = E.make_write_stream(I, "incoming")
+        self.transport = I.new_object(tcd, {"_pending_requests": V.VDict([]), "_incoming_send": self.incoming})
+        tmpl, n, self.expected = self.SHAPES[self.shape]
+        self.payloads = []
+        for k in range(n):
+            j = I.fresh(f"payload{k}", S)
+            # one-line JSON text of a routable JSON-RPC message
+            I.assume(z3.And(z3.PrefixOf(K("{"), j), z3.SuffixOf(K("}"), j), z3.Not(z3.Contains(j, K("\n"))),
+                            z3.Not(z3.Contains(j, K("\r"))), z3.Length(j) >= 2, ST.json_ok(j)))
+            d = ST.json_val(j)
+            I.assume(routable(d))
+            I.assume(z3.Implies(V.is_dict(d), Val.dsize(d) >= 0))
+            self.payloads.append(j)
+        parts = [K(p) if isinstance(p, str) else self.payloads[p] for p in tmpl]
+        text = z3.Concat(*parts) if len(parts) > 1 else parts[0]
+        mid = I.fresh("message_id")
+        I.assume(z3.Or(V.is_none(mid), V.is_int(mid), V.is_str(mid)))
+        return [self.transport, V.VStr(text), mid], {}
+
+    def post(self, I, result):
+        w = Val.items(E.gfield(I, self.incoming, "attempted"))
+        n = z3.simplify(z3.Length(w))
+        want = [ST.json_val(self.payloads[k]) for k in self.expected]
+        ok = z3.BoolVal(z3.is_int_value(n) and n.as_long() == len(want))
+        if z3.is_int_value(n) and n.as_long() == len(want):
+            conds = []
+            for k, d in enumerate(want):
+                m = z3.simplify(w[k])
+                for f in ("id", "method", "params", "result", "error"):
+                    v, h = I.get_field(m, f)
+                    conds.append(z3.If(h, v, V.NONE) == z3.If(has(d, f), val(d, f), V.NONE))
+            ok = z3.And(conds) if conds else z3.BoolVal(True)
+        cls = self.FINDING.get(self.shape)
+        kw = {"classes": {cls: z3.BoolVal(True)}} if cls else {}
+        I.oblige(self.name("delivers_exactly_the_messages_of_the_body_in_order"), ok, **kw)
+
+    def post_exc(self, I, e):
+        I.oblige(self.name(f"never_raises[{e.cls_name}]"), z3.BoolVal(e.cls_name == "CancelledError"))
+
+
+_c11_contracts = C11.contracts
+
+
+def _contracts11(self):
+    return _c11_contracts(self) + [SseText(s) for s in SseText.SHAPES]
+
+
+C11.contracts = _contracts11
+C11.title = ("_send_message_internal proved against a case postcondition over an arbitrary httpx answer (status, headers, "
+             "body, timeout, exception) for requests and notifications; _route_response, the sender loop and the "
+             "session-id bookkeeping proved; SSE bodies proved shape by shape (canonical LF/CRLF, several events, comment "
+             "and id lines, foreign event types) for arbitrary one-line JSON payloads; five clauses fail and are listed "
+             "known findings")
+C11.trusted = [t for t in C11.trusted if "havoc contract" not in t] + [
+    "inside _send_message_internal the SSE branch is used through a havoc contract; _process_sse_text itself is verified "
+    "per body shape (a finite list of spec-conformant shapes x all payloads), not against the full WHATWG grammar",
+    "prelude lemmas: split of a concatenation whose symbolic parts contain no separator; strip() is the identity on a "
+    "string that starts with '{' and ends with '}'"]
+CHECK = C11()
